@@ -403,6 +403,63 @@ theorem mprod_shape (x : Sh) (mode cols : Nat) (hx : x.isTTM = false) (h : x.N.g
     guardMprod x mode cols = .err .ShapeMismatch := by
   simpa [guardMprod, hx] using h
 
+/-- what the dense side requires of the list form: every listed mode exists and carries, at the time it is reached, the column
+    count of its factor matrix -/
+def MprodCompat : List Nat → List (Nat × Nat × Nat) → Prop
+  | _, [] => True
+  | N, (mode, rows, cols) :: rest => mode < N.length ∧ N.getD mode 0 = cols ∧ MprodCompat (setNat N mode rows) rest
+
+theorem mprodLoop_ok_iff (N : List Nat) (fm : List (Nat × Nat × Nat)) :
+    mprodLoop N fm = .ok ↔ MprodCompat N fm := by
+  induction fm generalizing N with
+  | nil => simp [mprodLoop, MprodCompat]
+  | cons p rest ih =>
+    obtain ⟨mode, rows, cols⟩ := p
+    unfold mprodLoop MprodCompat
+    by_cases h1 : mode ≥ N.length
+    · rw [if_pos h1]
+      constructor
+      · intro h; cases h
+      · intro h; omega
+    · rw [if_neg h1]
+      by_cases h2 : N.getD mode 0 ≠ cols
+      · rw [if_pos h2]
+        constructor
+        · intro h; cases h
+        · intro h; exact absurd h.2.1 h2
+      · rw [if_neg h2]
+        have h2' : N.getD mode 0 = cols := by
+          by_contra h; exact h2 h
+        rw [ih]
+        constructor
+        · intro h; exact ⟨by omega, h2', h⟩
+        · intro h; exact h.2.2
+
+/-- the list form of `mprod` returns an object only if the operand is a TT tensor, the two lists have the same length and every
+    pair is compatible — in particular a surplus matrix or a surplus mode is rejected, never silently ignored -/
+theorem mprodList_guard (x : Sh) (nModes : Nat) (fm : List (Nat × Nat × Nat)) :
+    guardMprodList x nModes fm = .ok ↔ (x.isTTM = false ∧ fm.length = nModes ∧ MprodCompat x.N fm) := by
+  obtain ⟨tx, xN, xM⟩ := x
+  cases tx
+  · by_cases h : fm.length = nModes
+    · simp [guardMprodList, h, mprodLoop_ok_iff]
+    · simp [guardMprodList, h]
+  · simp [guardMprodList]
+
+theorem mprodList_length_mismatch (x : Sh) (nModes : Nat) (fm : List (Nat × Nat × Nat)) (hx : x.isTTM = false)
+    (h : fm.length ≠ nModes) : guardMprodList x nModes fm = .err .InvalidArguments := by
+  simp [guardMprodList, hx, h]
+
+theorem mprodList_kinds (x : Sh) (nModes : Nat) (fm : List (Nat × Nat × Nat)) (h : x.isTTM = true) :
+    guardMprodList x nModes fm = .err .IncompatibleTypes := by
+  simp [guardMprodList, h]
+
+example : guardMprodList ⟨false,[2,3,4],[]⟩ 2 [(0,5,2),(0,6,5)] = .ok := by decide
+example : guardMprodList ⟨false,[2,3,4],[]⟩ 1 [(0,5,2),(1,6,3)] = .err .InvalidArguments := by decide
+example : guardMprodList ⟨false,[2,3,4],[]⟩ 2 [(0,5,2)] = .err .InvalidArguments := by decide
+example : guardMprodList ⟨false,[2,3,4],[]⟩ 2 [(0,5,2),(0,6,2)] = .err .ShapeMismatch := by decide
+example : guardMprodList ⟨false,[2,3,4],[]⟩ 1 [(3,5,2)] = .err .Other := by decide
+
 theorem pad_guard (d npad : Nat) : guardPad d npad = .ok ↔ npad ≤ d := by
   simp [guardPad]
 
